@@ -185,7 +185,7 @@ pub fn run(suite: &str, a: &[&str]) -> Option<String> {
         "line_points" => spts(ln(a).points()),
         "line_digest" | "line_walk" => digest(ln(a).points()),
         "thick_pixels" => spts(thick(a)),
-        "thick_digest" => digest(thick(a)),
+        "thick_digest" | "thick_walk" => digest(thick(a)),
         "line_sbb" => src(ln(a).into_styled(PrimitiveStyle::with_stroke(Gray8::new(1), u(a[4]))).bounding_box()),
         "p_thick" => p_thick(ln(a), u(a[4])),
         "p_line" => p_line(ln(a)),
